@@ -1,12 +1,12 @@
 SPECIFICATION Spec
 CONSTANTS
-  MaxGuards = 2
+  MaxGuards = 1
   MaxActs = 1
-  Engines = 2
+  Engines = 1
   RefLevel = "small"
-  Places = {"global", "closure", "list", "box", "hash", "cont", "host"}
-  Derive = TRUE
-  Pair = FALSE
+  Places = {"global"}
+  Derive = FALSE
+  Pair = TRUE
   Defects = {"shared_stack"}
   EmitCases = TRUE
 INVARIANTS TypeOK Emit
